@@ -10,6 +10,8 @@ TOL = 1e-9
 RULE = ('models: full product K x A x P x B x G for one link; shapes(2) x '
         'reduced 24(+F) template alphabet; every shape x every link-type '
         'string for 3 links (4 in thorough, chain/star for 5,6) with seeded '
+        'H/S words; every 4-link shape and every forest of stars up to 6 links '
+        'with single-joint links (all 5/6-link shapes in thorough); '
         'H/S words and templates. inputs: tensor grid of 3 angles per hinge, '
         '2 values per slide, root poses {identity, generic} (+24 cube rotations '
         'on single free bodies), qd in {0, e_i}. oracle: mujoco xpos/xmat and '
@@ -29,6 +31,12 @@ def _models(tier, seed):
   specs = phys.n1_full(seed)
   specs += phys.n2_reduced(seed, nvar=3 if tier == 'quick' else 4)
   specs += phys.nk_skeletons(3, seed, assignments=2 if tier == 'quick' else 6)
+  # level-grouping patterns of scan.tree: every 4-link shape and every forest
+  # of stars up to 6 links (all 5- and 6-link shapes in thorough)
+  lv = scope.shapes(4) + phys.star_forests(6)
+  if tier != 'quick':
+    lv += scope.shapes(5) + scope.shapes(6)
+  specs += phys.level_pattern_models(seed, sorted(set(lv)))
   if tier != 'quick':
     specs += phys.nk_skeletons(4, seed, assignments=1)
     for n in (5, 6):
